@@ -1,29 +1,45 @@
 /-
-C15 — property theorems (only). Model: `HydroVerif/Model/C15.lean`; helper lemmas and the predicates
-`Far`, `Sep`, `OffEdges`, `shift`, `scale`, `lin`, `StrictConvexCCW`, `LeftOfAll`: `HydroVerif/Lemmas/C15*.lean`.
+C15 — property theorems (only). Models: `HydroVerif/Model/C15.lean` (the code), `Model/C15Round.lean` (the same model
+in rounded arithmetic, executable binary64 rounding `rnd53`), `Model/C15Hist.lean` (state machines for histories of
+calls / queries); helper lemmas and the predicates `Far`, `Sep`, `OffEdges`, `shift`, `scale`, `lin`,
+`StrictConvexCCW`, `LeftOfAll`, `RelRound`, `SepR`, `GapR`, `Rectilinear`, `SegFree`, `PathFree`:
+`HydroVerif/Lemmas/C15*.lean`.
 
 All statements are over an arbitrary linearly ordered field `α` (ℚ, ℝ, …), every polygon (any number of vertices,
 any shape, any orientation, repeated vertices allowed) and every point subject to the stated hypotheses. Every model
-function named below is executed by `Drivers/C15.lean` (Float and exact Rat instances) and compared with the real
-code on every run: `pointsInsidePolygonCall` → `pointsInsidePolygon` → `cInside` / `crossing` / `edgeToggle`
-(requests `pipf`, `pipcall`, `pipq`), `evenOdd`, `evenOddLeft`, `evenOddLe`, `evenOddDir` (`pipq`), `cellsInside`,
-`cellsInsideTable`, `cellCentre` (`cells`, `centres`).
+function named below is executed by `Drivers/C15.lean` (Float, exact Rat and simulated-binary64 instances) and compared
+with the real code on every run: `pointsInsidePolygonCallN` → `pointsInsidePolygonCall` → `pointsInsidePolygon` →
+`cInside` / `crossing` / `edgeToggle` (requests `pipf`, `pipcall`, `pipcalln`, `pipq`), `evenOdd`, `evenOddLeft`,
+`evenOddLe`, `evenOddDir` (`pipq`), `pointInsideRounded rnd53`, `xintersR`, `sepRb`, `gapRb`, `rectb`, `repb`,
+`abscissaOkb` (`pipr`), `cellsInside`, `cellsInsideTable`, `cellCentre` (`cells`, `centres`), `pipRun` / `pipStep` /
+`pipAbsRun` (`piphist`), `gridRun` / `gridStep` / `cellsInsideCall` (`gridhist`).
 
 CLAUSE → THEOREMS → WHAT REMAINS OUTSIDE
 
 1. "for any polygon - either orientation, any starting vertex, closed or open, convex or not - and any point farther
    from the boundary than the tolerance, points_inside_polygon reports 1 exactly when the point is interior under the
    even-odd rule, 0 otherwise"
-   → `inside_eq_evenOdd_of_far` (all polygons, all atol ≥ 0, all points with sup-norm distance > atol to every edge),
-     `crossing_eq_evenOdd_of_far` + `evenOdd_false_outside_box` (pre-test, guards, box never decide),
+   → exact arithmetic: `inside_eq_evenOdd_of_far` (all polygons, all atol ≥ 0, all points with sup-norm distance > atol to
+     every edge), `crossing_eq_evenOdd_of_far` + `evenOdd_false_outside_box` (pre-test, guards, box never decide),
      `inside_eq_evenOddLe_of_sep`, `inside_eq_evenOdd_of_sep`, `inside_eq_evenOddLe_of_atol_nonpos`,
      `evenOddLe_eq_evenOdd` (the quantifier's "coordinates differ by much more than the tolerance": exact at EVERY point);
-     the rule itself is well defined: `straddling_edges_even`, `evenOdd_right_eq_left`, `inside_eq_evenOddLeft_of_far`,
+   → FLOATING POINT: `rounded_inside_eq_evenOdd` (the kernel run in ANY arithmetic whose + - * / results have relative
+     error ≤ u ≤ 1/100 — guards on rounded differences, abscissa with six roundings — answers the EXACT even-odd rule for
+     every polygon whose coordinate steps are 0 or exceed atol/(1-u) and every point off the straddling edges by more than
+     u(|p1x| + 8|p2x-p1x|)), `rounded_inside_eq_exact` (= the exact kernel), `rounded_abscissa_error`,
+     `rounded_outside_box` (box rejection is rounding-free), `rounded_rectilinear_exact` (rectilinear polygons: exact at
+     EVERY point for any rounding that keeps 0 and the vertex abscissae), `rnd53_standard_model`,
+     `sim53_inside_eq_evenOdd`, `sim53_rectilinear_exact` (the executed binary64 simulation), `rounded_margin_needed`;
+   → the rule itself is well defined: `straddling_edges_even`, `evenOdd_right_eq_left`, `inside_eq_evenOddLeft_of_far`,
      `evenOdd_any_direction`, `inside_eq_evenOddDir_of_far` (the crossing parity is the same along EVERY ray direction);
-     convex case = half-plane test: `convex_evenOdd_iff`, `convex_inside_iff`, `convex_cw_inside_iff`.
-   outside: IEEE rounding (Float instance executed, bit-equal to the kernel; exact = float checked on every far point);
-     a topological definition of "interior" (Jordan curve) is not formalised — "interior under the even-odd rule" is
-     the crossing parity of a ray, proved independent of the ray.
+     it is an interior: `evenOdd_constant_on_free_segment`, `evenOdd_constant_on_free_path` (constant along every path
+     that misses the boundary), `evenOdd_false_of_escape`, `inside_zero_of_escape` (0 wherever such a path leaves the
+     bounding box); convex case = half-plane test: `convex_evenOdd_iff`, `convex_inside_iff`, `convex_cw_inside_iff`;
+     hypotheses shown necessary: `far_needs_atol_nonneg`, `right_left_needs_offEdges`.
+   outside: that IEEE binary64 meets the standard model |fl(z) - z| ≤ 2⁻⁵³|z| (no overflow / underflow) — classical, not
+     proved; `rnd53` is proved to meet it and the model at `Rd Rat rnd53` is compared with the real kernel at every
+     generated point, the Float instance bit for bit. The Jordan curve theorem is not formalised (that crossing one edge
+     flips the answer is not stated).
 2. "the answer is unchanged by rotating or reversing the vertex list" (and by closing it)
    → `evenOdd_rotate`, `evenOdd_reverse`, `evenOdd_close` (no hypothesis), `inside_rotate`, `inside_reverse`,
      `inside_close` (code's answer, far points). outside: nothing.
@@ -31,21 +47,28 @@ CLAUSE → THEOREMS → WHAT REMAINS OUTSIDE
    → `evenOdd_shift`, `evenOdd_scale`, `inside_shift`, `inside_scale`; beyond the clause: every invertible linear map
      `evenOdd_linear_invariant`, `inside_linear_invariant`.
    outside: `inside_scale` / `inside_linear_invariant` need the distance clause before AND after the map because the
-     code's tolerance is absolute (a fact of the code, not a gap of the proof).
+     code's tolerance is absolute — shown necessary by `inside_scale_needs_far_after`.
 4. "cells_inside_polygon returns exactly the grid cells whose centres are inside"
    → `cells_mem_iff` (each cell once, increasing, ⇔ centre accepted), `cells_mem_iff_evenOdd` (⇔ centre interior),
-     `cells_table` (x, y columns are the centres of the listed cells), `cellCentre_rowcol` (centre formula).
-   outside: the `cell2coord` kernel (C07; its formula is restated and compared bit for bit), pandas; that a Grid
-     object carries no hidden state between queries is checked by the history streams (model = pure function of the
-     current geometry), not by a theorem.
+     `cells_table` (x, y columns are the centres of the listed cells), `cellCentre_rowcol` (centre formula),
+     `cellsInsideCall_spec` (polygon width ≠ 2, empty polygon, table); over ARBITRARY histories of re-assignments, clones
+     and queries: `gridRun_queries_change_nothing`, `gridHistory_query`, `grid_objects_independent`.
+   outside: the `cell2coord` kernel (C07; its formula is restated and compared bit for bit), pandas; that the REAL Grid
+     object has no hidden attribute is compared over generated histories (the model's state is the geometry only).
 5. the wrapper's own behaviour (no clause of the property speaks of rejected input; kept because it decides answers)
    → `pointsInside_eq_map` (answers independent of each other and of the previous content of a caller's buffer),
-     `pointsInside_error_iff`, `pointsInsideCall_spec` (dtype → length → shape → empty polygon, in the code's order).
-   outside: numpy dtype conversion (`astype`), Cython buffer typing (ndim, contiguity), NaN / infinite coordinates.
+     `pointsInside_error_iff`, `pointsInsideCall_spec` (dtype → length → shape → empty polygon, in the code's order),
+     `nprint_decides_nothing`; over ARBITRARY histories of calls (answered and refused), array edits and buffer use:
+     `pipRun_refines_memoryless`, `pipStep_refused_unchanged`, `pipStep_buffer_answers`, `pipHistory_evenOdd`.
+   outside: numpy dtype conversion (`astype`), Cython buffer typing (ndim, contiguity), NaN / infinite coordinates; array
+     identity (the library writing into its inputs) is not expressible at value level: checked by the harness.
 -/
 import HydroVerif.Lemmas.C15
 import HydroVerif.Lemmas.C15Convex
 import HydroVerif.Lemmas.C15Direction
+import HydroVerif.Lemmas.C15Round
+import HydroVerif.Lemmas.C15Hist
+import HydroVerif.Lemmas.C15Path
 
 set_option linter.unusedSectionVars false
 
@@ -364,6 +387,263 @@ theorem cellCentre_rowcol (nrows ncols : Nat) (xll yll csz : α) (r c : Nat) (hc
     rw [Nat.add_sub_cancel, Nat.mul_div_cancel _ (Nat.lt_of_le_of_lt (Nat.zero_le c) hc)]
   simp only [cellCentre, h1, h2, Nat.cast_one, Nat.cast_ofNat]
 
+/-! ### the kernel in rounded (floating-point) arithmetic -/
+
+/-- **the clause "reports 1 exactly when the point is interior" in floating-point arithmetic.** Run the kernel in
+ANY arithmetic whose every `+ - * /` result is rounded with relative error at most `u ≤ 1/100` (the standard model
+of floating-point arithmetic; `u = 2⁻⁵³` for binary64 barring overflow / underflow; comparisons, `fmin`, `fmax`,
+`fabs` exact). If every coordinate step of the polygon is zero or exceeds `atol / (1 - u)` and the point is off every
+edge, at its own height, by more than `u (|p1x| + 8 |p2x - p1x|)`, the rounded kernel (box test, pre-test, both guards
+on rounded differences, abscissa with six roundings) answers the EXACT even-odd rule -/
+theorem rounded_inside_eq_evenOdd {u atol : α} {rnd : α → α} {poly : List (α × α)} {pt : α × α}
+    (hr : RelRound u rnd) (hu : 0 ≤ u) (hu1 : u ≤ 1 / 100) (hsep : SepR u atol poly) (hgap : GapR u poly pt) :
+    pointInsideRounded rnd atol poly pt = evenOdd poly pt :=
+  pointInsideRounded_eq hr hu hu1 hsep hgap
+
+/-- the abscissa the kernel computes with six roundings is within `u (|p1x| + 8 |p2x - p1x|)` of the exact crossing
+abscissa of a straddling edge -/
+theorem rounded_abscissa_error {u : α} {rnd : α → α} (hr : RelRound u rnd) (hu : 0 ≤ u) (hu1 : u ≤ 1 / 100) {y : α}
+    {p1 p2 : α × α} (hs : straddle y p1 p2 = true) :
+    |xintersR rnd y p1 p2 - xint y p1 p2| ≤ u * (|p1.1| + 8 * |p2.1 - p1.1|) :=
+  xintersR_error hr hu hu1 hs
+
+/-- under the same hypotheses the rounded kernel and the exact kernel (the `Float` and the `Rat` instance of the
+model) give the same answer -/
+theorem rounded_inside_eq_exact {u atol : α} {rnd : α → α} {poly : List (α × α)} {pt : α × α}
+    (hr : RelRound u rnd) (hu : 0 ≤ u) (hu1 : u ≤ 1 / 100) (hsep : SepR u atol poly) (hgap : GapR u poly pt) :
+    pointInsideRounded rnd atol poly pt = pointInside atol poly pt := by
+  rw [rounded_inside_eq_evenOdd hr hu hu1 hsep hgap]
+  symm
+  apply inside_eq_evenOdd_of_sep
+  · intro e he
+    obtain ⟨h1, h2⟩ := hsep e he
+    have hle : ∀ z : α, (1 - u) * |z| ≤ |z| := fun z => by nlinarith [abs_nonneg z]
+    exact ⟨h1.imp id fun h => lt_of_lt_of_le h (hle _), h2.imp id fun h => le_trans h (hle _)⟩
+  · intro e he hs heq
+    have := hgap e he hs
+    rw [heq, sub_self, abs_zero] at this
+    exact absurd this (not_lt.mpr (errX_nonneg hu _ _))
+
+/-- the bounding-box rejection involves no arithmetic: whatever the rounding, a point outside the box is answered 0 -/
+theorem rounded_outside_box (rnd : α → α) (atol : α) {v0 : α × α} {t : List (α × α)} {pt : α × α}
+    (hout : outsideBox (extentX v0 t) (extentY v0 t) pt = true) :
+    pointInsideRounded rnd atol (v0 :: t) pt = false := by
+  unfold pointInsideRounded pointInside pointInsideFrom
+  simp only [List.map_cons]
+  rw [rd_outsideBox, if_pos hout]
+
+/-- `rnd53` (round to nearest, ties to even, 53 significant bits, unbounded exponent — executed by the driver) meets
+the standard model with `u = 2⁻⁵³` -/
+theorem rnd53_standard_model : RelRound u53 rnd53 := rnd53_relRound
+
+/-- the simulated binary64 kernel answers the exact even-odd rule wherever the two decided checks pass (the driver
+evaluates both checks and the simulated kernel on the generated points; the harness compares with the real kernel) -/
+theorem sim53_inside_eq_evenOdd {atol : ℚ} {poly : List (ℚ × ℚ)} {pt : ℚ × ℚ} (hsep : sepRb u53 atol poly = true)
+    (hgap : gapRb u53 poly pt = true) : pointInsideRounded rnd53 atol poly pt = evenOdd poly pt :=
+  rounded_inside_eq_evenOdd rnd53_standard_model (by unfold u53; norm_num) (by unfold u53; norm_num)
+    ((sepRb_iff _ _ _).mp hsep) ((gapRb_iff _ _ _).mp hgap)
+
+/-- **rectilinear polygons (every edge vertical or horizontal): exact in floating-point arithmetic at EVERY point.**
+For any rounding that keeps `0` and the vertex abscissae (representable numbers) — no bound on its error elsewhere —
+any tolerance and any point, also on the boundary, the rounded kernel is the closed-ray even-odd rule: on such edges
+`(y - p1y) * 0 / d = 0` and `p1x + 0 = p1x`, so no rounding error survives -/
+theorem rounded_rectilinear_exact {rnd : α → α} (hz : rnd 0 = 0) {poly : List (α × α)}
+    (hrep : ∀ v ∈ poly, rnd v.1 = v.1) (hrect : Rectilinear poly) (atol : α) (pt : α × α) :
+    pointInsideRounded rnd atol poly pt = evenOddLe poly pt :=
+  pointInsideRounded_rectilinear hz hrep hrect atol pt
+
+/-- … and so is the simulated binary64 kernel on every rectilinear polygon with binary64 vertices, at every point -/
+theorem sim53_rectilinear_exact {poly : List (ℚ × ℚ)} (hrect : rectb poly = true) (hrep : repb poly = true)
+    (atol : ℚ) (pt : ℚ × ℚ) : pointInsideRounded rnd53 atol poly pt = evenOddLe poly pt :=
+  rounded_rectilinear_exact (rnd_zero rnd53_standard_model) ((repb_iff _).mp hrep) ((rectb_iff _).mp hrect) atol pt
+
+/-- `nprint` decides no answer: outside the int32 range the call is refused before anything else is looked at,
+inside it the outcome is that of the call without it -/
+theorem nprint_decides_nothing (nprint : Int) (atol : α) (ptsWidth : Nat) (pts : List (α × α)) (polyWidth : Nat)
+    (poly : List (α × α)) (inside : Option (Bool × Nat)) :
+    ((nprint < -2147483648 ∨ 2147483647 < nprint) →
+      pointsInsidePolygonCallN nprint atol ptsWidth pts polyWidth poly inside = .error .nprintRange) ∧
+    ((-2147483648 ≤ nprint ∧ nprint ≤ 2147483647) →
+      pointsInsidePolygonCallN nprint atol ptsWidth pts polyWidth poly inside =
+        pointsInsidePolygonCall atol ptsWidth pts polyWidth poly inside) := by
+  unfold pointsInsidePolygonCallN
+  constructor
+  · intro h
+    rw [if_pos (by simpa using h)]
+  · intro h
+    rw [if_neg (by simp; omega)]
+
+/-! ### the topological content of "interior under the even-odd rule" -/
+
+/-- **the even-odd answer is the same at both ends of every segment that has no point in common with the boundary**
+(any direction, any length, any polygon): the two answers are the crossing parities of one ray, and no edge crosses the
+ray between the two points -/
+theorem evenOdd_constant_on_free_segment {poly : List (α × α)} {P Q : α × α} (h : SegFree poly P Q) :
+    evenOdd poly P = evenOdd poly Q :=
+  evenOdd_segFree h
+
+/-- … hence constant along every polygonal path that misses the boundary: the points answered 1 and the points
+answered 0 are unions of connected components of the complement of the boundary -/
+theorem evenOdd_constant_on_free_path {poly : List (α × α)} (P : α × α) (path : List (α × α))
+    (h : PathFree poly (P :: path)) :
+    evenOdd poly P = evenOdd poly ((P :: path).getLast (List.cons_ne_nil _ _)) :=
+  evenOdd_pathFree P path h
+
+/-- a point that can be joined to a point outside the bounding box by a path missing the boundary is exterior: the
+points answered 1 are enclosed by the boundary -/
+theorem evenOdd_false_of_escape {v0 : α × α} {t : List (α × α)} (P : α × α) (path : List (α × α))
+    (h : PathFree (v0 :: t) (P :: path))
+    (hout : outsideBox (extentX v0 t) (extentY v0 t) ((P :: path).getLast (List.cons_ne_nil _ _)) = true) :
+    evenOdd (v0 :: t) P = false := by
+  rw [evenOdd_constant_on_free_path P path h]
+  exact evenOdd_outsideBox hout
+
+/-- … and the code answers 0 there, when the point is farther than the tolerance from the boundary -/
+theorem inside_zero_of_escape {atol : α} {v0 : α × α} {t : List (α × α)} (h0 : 0 ≤ atol) (P : α × α)
+    (path : List (α × α)) (hfar : Far atol (v0 :: t) P) (h : PathFree (v0 :: t) (P :: path))
+    (hout : outsideBox (extentX v0 t) (extentY v0 t) ((P :: path).getLast (List.cons_ne_nil _ _)) = true) :
+    pointInside atol (v0 :: t) P = false := by
+  rw [inside_eq_evenOdd_of_far h0 hfar]
+  exact evenOdd_false_of_escape P path h hout
+
+/-! ### hypotheses that the property text does not state are needed -/
+
+/-- `0 ≤ atol` cannot be dropped from `inside_eq_evenOdd_of_far`: with a negative tolerance every point is "farther
+than the tolerance" from the boundary, also a point ON an edge, where the closed ray of the code and the open ray of
+the rule differ -/
+theorem far_needs_atol_nonneg : ∃ (atol : ℚ) (poly : List (ℚ × ℚ)) (pt : ℚ × ℚ),
+    atol < 0 ∧ Far atol poly pt ∧ pointInside atol poly pt ≠ evenOdd poly pt := by
+  refine ⟨-1, [(0, 0), (4, 0), (0, 4)], (2, 2), by norm_num, ?_, by decide +kernel⟩
+  intro e _ s _ _
+  exact Or.inl (lt_of_lt_of_le (by norm_num) (abs_nonneg _))
+
+/-- the second distance hypothesis of `inside_scale` cannot be dropped: the tolerance is absolute, so a configuration
+far from the boundary can be scaled down into the tolerance, where the vertical-edge guard takes over -/
+theorem inside_scale_needs_far_after : ∃ (atol c : ℚ) (poly : List (ℚ × ℚ)) (pt : ℚ × ℚ),
+    0 ≤ atol ∧ 0 < c ∧ Far atol poly pt ∧
+      pointInside atol (poly.map (scale c)) (scale c pt) ≠ pointInside atol poly pt := by
+  refine ⟨1 / 100, 1 / 1000, [(0, 0), (2, 4), (-2, 4)], (3 / 2, 1), by norm_num, by norm_num, ?_, by decide +kernel⟩
+  intro e he
+  simp only [edges, edgesFrom, List.cons_append, List.nil_append, List.mem_cons, List.not_mem_nil, or_false] at he
+  intro s hs0 hs1
+  rcases he with rfl | rfl | rfl
+  · by_cases h : s ≤ 1 / 2
+    · left; rw [lt_abs]; left; norm_num; linarith
+    · right; rw [lt_abs]; right; norm_num; linarith
+  · right; norm_num
+  · left; rw [lt_abs]; left; norm_num; linarith
+
+/-- a margin around the edges cannot be dropped from `rounded_inside_eq_evenOdd`: with relative error 1/100 a point
+inside by 0.0005 (well-separated polygon) is answered outside -/
+theorem rounded_margin_needed : ∃ (u atol : ℚ) (rnd : ℚ → ℚ) (poly : List (ℚ × ℚ)) (pt : ℚ × ℚ),
+    RelRound u rnd ∧ 0 ≤ u ∧ u ≤ 1 / 100 ∧ SepR u atol poly ∧
+      pointInsideRounded rnd atol poly pt ≠ evenOdd poly pt := by
+  refine ⟨1 / 100, 1 / 100, fun x => x * (1 - 1 / 100), [(0, 0), (4, 0), (0, 4)], (29995 / 10000, 1), ?_,
+    by norm_num, by norm_num, (sepRb_iff _ _ _).mp (by decide +kernel), by decide +kernel⟩
+  intro x
+  rw [show x * (1 - 1 / 100) - x = -(1 / 100) * x by ring, abs_mul, abs_neg,
+    abs_of_pos (by norm_num : (0 : ℚ) < 1 / 100)]
+
+/-- `OffEdges` cannot be dropped from `evenOdd_right_eq_left`: on an edge the right ray and the left ray differ -/
+theorem right_left_needs_offEdges : ∃ (poly : List (ℚ × ℚ)) (pt : ℚ × ℚ), evenOdd poly pt ≠ evenOddLeft poly pt :=
+  ⟨[(0, 0), (4, 0), (0, 4)], (2, 2), by decide +kernel⟩
+
+/-! ### histories: calls on one set of argument arrays, queries on Grid objects that live on -/
+
+/-- **refinement over arbitrary histories.** Whatever the caller does between calls — re-fill or replace either
+array, change the tolerance, allocate / drop / scribble on its answer buffer, make calls that are answered or refused —
+the outcomes of all calls are those of the memoryless specification, in which a call is a function of the arrays'
+current content (and the buffer's length) and changes nothing; buffer content and past answers never show -/
+theorem pipRun_refines_memoryless (w : PipWorld α) (ops : List (PipOp α)) :
+    (pipRun w ops).1 = (pipAbsRun w.abs ops).1 ∧ (pipRun w ops).2.abs = (pipAbsRun w.abs ops).2 :=
+  pipRun_abs ops w
+
+/-- fault paths: a call refused by the Python guards (answer vector of another dtype or length), or any refused call
+that was not handed the caller's buffer, leaves the caller's world — arrays, tolerance, buffer content — unchanged -/
+theorem pipStep_refused_unchanged (w : PipWorld α) (arg : InsideArg) (e : Err)
+    (h : (pipStep w (.call arg)).2 = some (.error e))
+    (hk : e = .insideDtype ∨ e = .insideLength ∨ arg ≠ .buffer) : (pipStep w (.call arg)).1 = w :=
+  pipStep_refused w arg e h hk
+
+/-- an answered call on the caller's buffer leaves exactly the answers in it; nothing else changes -/
+theorem pipStep_buffer_answers (w : PipWorld α) (b : List Int) (l : List Bool) (hb : w.buf = some b)
+    (h : (pipStep w (.call .buffer)).2 = some (.ok l)) :
+    (pipStep w (.call .buffer)).1 = { w with buf := some (answersToInt l) } :=
+  pipStep_buffer_ok w b l hb h
+
+/-- **the main theorem after any history.** Let `w'` be the caller's world after an arbitrary history `ops`. A
+further call (no answer vector, or the caller's buffer when it has the length of the points array) on a non-empty
+polygon with every point farther than the tolerance from the boundary answers the even-odd rule for the arrays as
+they are NOW -/
+theorem pipHistory_evenOdd (w : PipWorld α) (ops : List (PipOp α)) (arg : InsideArg)
+    (harg : arg = .none ∨ (arg = .buffer ∧ ∀ b, (pipRun w ops).2.buf = some b → b.length = (pipRun w ops).2.pts.length))
+    (v0 : α × α) (t : List (α × α)) (hp : (pipRun w ops).2.poly = v0 :: t) (h0 : 0 ≤ (pipRun w ops).2.atol)
+    (hfar : ∀ pt ∈ (pipRun w ops).2.pts, Far (pipRun w ops).2.atol (v0 :: t) pt) :
+    (pipRun w (ops ++ [.call arg])).1 =
+      (pipRun w ops).1 ++ [.ok ((pipRun w ops).2.pts.map (evenOdd (v0 :: t)))] := by
+  rw [pipRun_append]
+  simp only [pipRun, pipStep, List.append_cancel_left_eq, List.cons.injEq, and_true]
+  set w' := (pipRun w ops).2 with hw'
+  have hin : insideOf w' arg = none ∨ insideOf w' arg = some (true, w'.pts.length) := by
+    rcases harg with rfl | ⟨rfl, hb⟩
+    · exact Or.inl rfl
+    · cases hbuf : w'.buf with
+      | none => left; simp [insideOf, hbuf]
+      | some b => right; simp [insideOf, hbuf, hb b hbuf]
+  have hspec := (pointsInsideCall_spec w'.atol 2 w'.pts 2 w'.poly (insideOf w' arg)).2.2 hin
+  rw [hspec.2.2 rfl rfl v0 t hp]
+  congr 1
+  apply List.map_congr_left
+  intro pt hpt
+  exact inside_eq_evenOdd_of_far h0 (hfar pt hpt)
+
+/-- `Grid.cells_inside_polygon` as the caller makes it: a polygon array without exactly two columns is refused, then
+an empty polygon; otherwise the table of the cells whose centre the point test accepts -/
+theorem cellsInsideCall_spec (nrows ncols : Nat) (xll yll csz atol : α) (w : Nat) (poly : List (α × α)) :
+    (w ≠ 2 → cellsInsideCall nrows ncols xll yll csz atol w poly = .error .shapeAssert) ∧
+    (w = 2 → poly = [] → cellsInsideCall nrows ncols xll yll csz atol w poly = .error .emptyPolygon) ∧
+    (w = 2 → ∀ v0 t, poly = v0 :: t → ∃ l, cellsInside nrows ncols xll yll csz atol poly = .ok l ∧
+      cellsInsideCall nrows ncols xll yll csz atol w poly = .ok (l.map fun c =>
+        ((cellCentre nrows ncols xll yll csz c).1, (cellCentre nrows ncols xll yll csz c).2, c))) := by
+  refine ⟨fun h => by simp [cellsInsideCall, h], ?_, ?_⟩
+  · rintro rfl rfl; simp [cellsInsideCall, cellsInsideTable, pointsInsidePolygon]
+  · rintro rfl v0 t rfl
+    obtain ⟨l, h1, h2⟩ := cells_table nrows ncols xll yll csz atol v0 t
+    exact ⟨l, h1, by simpa [cellsInsideCall] using h2⟩
+
+/-- over ANY history of re-assignments, clones and queries (answered or refused) the objects are what the same
+history with every query erased leaves: a query changes no object, its own or another -/
+theorem gridRun_queries_change_nothing (atol : α) (objs : List (Geom α)) (ops : List (GridOp α)) :
+    (gridRun atol objs ops).2 = (gridRun atol objs (ops.filter fun op => !op.isQuery)).2 :=
+  gridRun_state_erase atol ops objs
+
+/-- a query after any history is answered from the geometry the object has at that moment -/
+theorem gridHistory_query (atol : α) (objs : List (Geom α)) (ops : List (GridOp α)) (i w : Nat)
+    (poly : List (α × α)) (g : Geom α) (hg : (gridRun atol objs ops).2[i]? = some g) :
+    gridRun atol objs (ops ++ [.query i w poly]) =
+      ((gridRun atol objs ops).1 ++ [cellsInsideCall g.nrows g.ncols g.xll g.yll g.csz atol w poly],
+        (gridRun atol objs ops).2) := by
+  rw [gridRun_append]
+  simp [gridRun, gridStep, hg]
+
+/-- objects do not alias: re-assigning an attribute of object `j` leaves every other object as it was, and a clone
+starts as a copy of its original while all earlier objects keep their place -/
+theorem grid_objects_independent (atol : α) (objs : List (Geom α)) (i j : Nat) (hij : i ≠ j) (v : α) :
+    (gridStep atol objs (.setXll j v)).1[i]? = objs[i]? ∧ (gridStep atol objs (.setYll j v)).1[i]? = objs[i]? ∧
+    (gridStep atol objs (.setCsz j v)).1[i]? = objs[i]? ∧
+    (i < objs.length → (gridStep atol objs (.clone j)).1[i]? = objs[i]?) ∧
+    (j < objs.length → (gridStep atol objs (.clone j)).1[objs.length]? = objs[j]?) := by
+  refine ⟨modifyAt_getElem?_ne _ _ _ _ hij, modifyAt_getElem?_ne _ _ _ _ hij, modifyAt_getElem?_ne _ _ _ _ hij, ?_, ?_⟩
+  · intro hi
+    simp only [gridStep]
+    cases h : objs[j]? with
+    | none => rfl
+    | some g => simp [List.getElem?_append_left hi]
+  · intro hj
+    simp only [gridStep]
+    have : objs[j]? = some objs[j] := List.getElem?_eq_getElem hj
+    simp [this]
+
 /-! ### non-vacuity: the hypotheses are met by concrete, non-trivial inputs (over ℚ) -/
 
 /-- the triangle (0,0) (4,0) (0,4); the point (1,1) is farther than 1/100 from its boundary -/
@@ -407,5 +687,70 @@ example : StrictConvexCCW ([(0, 0), (4, 0), (0, 4)] : List (ℚ × ℚ)) := by
   unfold StrictConvexCCW; decide +kernel
 example : LeftOfAll [(0, 0), (4, 0), (0, 4)] ((1, 1) : ℚ × ℚ) := by
   unfold LeftOfAll; decide +kernel
+
+/-- a rounding whose relative error is exactly 1/1000 everywhere -/
+example : RelRound (1 / 1000 : ℚ) (fun x => x * (1 + 1 / 1000)) := by
+  intro x
+  rw [show x * (1 + 1 / 1000) - x = 1 / 1000 * x by ring, abs_mul, abs_of_pos (by norm_num : (0 : ℚ) < 1 / 1000)]
+example : SepR (1 / 1000 : ℚ) (1 / 100) [(0, 0), (4, 0), (0, 4)] := (sepRb_iff _ _ _).mp (by decide +kernel)
+example : GapR (1 / 1000 : ℚ) [(0, 0), (4, 0), (0, 4)] (1, 1) := (gapRb_iff _ _ _).mp (by decide +kernel)
+example : pointInsideRounded (fun x : ℚ => x * (1 + 1 / 1000)) (1 / 100) [(0, 0), (4, 0), (0, 4)] (1, 1) = true ∧
+    pointInsideRounded (fun x : ℚ => x * (1 + 1 / 1000)) (1 / 100) [(0, 0), (4, 0), (0, 4)] (3, 3) = false := by
+  decide +kernel
+/-- a rounding error that matters: with relative error 1/4 the point (2.9, 1), inside by 0.1, is answered outside -/
+example : pointInsideRounded (fun x : ℚ => x * (1 - 1 / 4)) (1 / 100) [(0, 0), (4, 0), (0, 4)] (29 / 10, 1) = false ∧
+    evenOdd [(0, 0), (4, 0), (0, 4)] ((29 / 10, 1) : ℚ × ℚ) = true := by decide +kernel
+example : sepRb u53 (1 / 100000000) [(0, 0), (4, 0), (0, 4)] = true ∧ gapRb u53 [(0, 0), (4, 0), (0, 4)] (1, 1) = true := by
+  decide +kernel
+example : rnd53 (1 / 3) = 6004799503160661 / 18014398509481984 := by decide +kernel
+example : pointInsideRounded rnd53 (1 / 100000000) [(0, 0), (4, 0), (1 / 3, 4)] (1, 1) = true := by decide +kernel
+example : (0 : ℚ) ≤ u53 ∧ u53 ≤ 1 / 100 := by unfold u53; norm_num
+/-- a history: answered call on the caller's buffer, a call refused for its length, the polygon re-filled, the
+buffer scribbled on, a call refused for its dtype, an answered call -/
+example : (pipRun (⟨[(1, 1), (3, 3)], [(0, 0), (4, 0), (0, 4)], 1 / 100, some [5, 5]⟩ : PipWorld ℚ)
+    [.call .buffer, .call (.foreign true 3), .setPolygon [(2, 2), (4, 2), (4, 4), (2, 4)], .scribble 7,
+      .call (.foreign false 2), .call .buffer]) =
+    ([.ok [true, false], .error .insideLength, .error .insideDtype, .ok [false, true]],
+      ⟨[(1, 1), (3, 3)], [(2, 2), (4, 2), (4, 4), (2, 4)], 1 / 100, some [0, 1]⟩) := by decide +kernel
+/-- a Grid history: query, clone, re-assign the clone's corner, a refused query (3 columns), query clone and original -/
+example : (gridRun (1 / 100 : ℚ) [⟨2, 2, 0, 0, 1⟩]
+    [.query 0 2 [(0, 0), (1, 0), (1, 2), (0, 2)], .clone 0, .setXll 1 (-1), .query 1 3 [(0, 0), (1, 0), (1, 2)],
+      .query 1 2 [(0, 0), (1, 0), (1, 2), (0, 2)], .query 0 2 [(0, 0), (1, 0), (1, 2), (0, 2)]]) =
+    ([.ok [(1 / 2, 3 / 2, 0), (1 / 2, 1 / 2, 2)], .error .shapeAssert, .ok [(1 / 2, 3 / 2, 1), (1 / 2, 1 / 2, 3)],
+      .ok [(1 / 2, 3 / 2, 0), (1 / 2, 1 / 2, 2)]], [⟨2, 2, 0, 0, 1⟩, ⟨2, 2, -1, 0, 1⟩]) := by decide +kernel
+example : Rectilinear ([(0, 0), (3, 0), (3, 2), (1, 2), (1, 1), (0, 1)] : List (ℚ × ℚ)) := by
+  intro e he
+  simp only [edges, edgesFrom, List.cons_append, List.nil_append, List.mem_cons, List.not_mem_nil, or_false] at he
+  rcases he with rfl | rfl | rfl | rfl | rfl | rfl <;> simp
+/-- a rounding that keeps the integers and is wildly wrong elsewhere: the L-shaped rectilinear polygon is still
+answered exactly, also ON its boundary (closed ray) -/
+example : pointInsideRounded (fun x : ℚ => if x.den = 1 then x else 1000 * x) (1 / 100)
+    [(0, 0), (3, 0), (3, 2), (1, 2), (1, 1), (0, 1)] (1 / 2, 3 / 2) = false ∧
+    pointInsideRounded (fun x : ℚ => if x.den = 1 then x else 1000 * x) (1 / 100)
+    [(0, 0), (3, 0), (3, 2), (1, 2), (1, 1), (0, 1)] (5 / 2, 3 / 2) = true ∧
+    pointInsideRounded (fun x : ℚ => if x.den = 1 then x else 1000 * x) (1 / 100)
+    [(0, 0), (3, 0), (3, 2), (1, 2), (1, 1), (0, 1)] (3, 3 / 2) = true := by decide +kernel
+example : rectb [(0, 0), (3, 0), (3, 2), (1, 2), (1, 1), (0, 1)] = true ∧
+    repb [(0, 0), (3, 0), (3, 2), (1, 2), (1, 1), (0, 1)] = true ∧ repb [(1 / 3, 0)] = false := by decide +kernel
+example : pointsInsidePolygonCallN 2147483648 (1 / 100 : ℚ) 3 [(1, 1)] 2 [] (some (false, 7)) = .error .nprintRange ∧
+    pointsInsidePolygonCallN (-7) (1 / 100 : ℚ) 2 [(1, 1)] 2 [(0, 0), (4, 0), (0, 4)] none = .ok [true] := by
+  decide +kernel
+
+/-- the segment from (1,1) to (3/2,1) misses the triangle's boundary; the path (3,3) → (5,5) leaves the box -/
+example : SegFree [(0, 0), (4, 0), (0, 4)] ((1, 1) : ℚ × ℚ) (3 / 2, 1) := by
+  intro e he s t hs0 hs1 ht0 ht1 heq
+  simp only [edges, edgesFrom, List.cons_append, List.nil_append, List.mem_cons, List.not_mem_nil, or_false] at he
+  have h1 := congrArg Prod.fst heq
+  have h2 := congrArg Prod.snd heq
+  rcases he with rfl | rfl | rfl <;> simp only [segPt] at h1 h2 <;> nlinarith
+example : PathFree [(0, 0), (4, 0), (0, 4)] [((3, 3) : ℚ × ℚ), (5, 5)] := by
+  refine ⟨?_, trivial⟩
+  intro e he s t hs0 hs1 ht0 ht1 heq
+  simp only [edges, edgesFrom, List.cons_append, List.nil_append, List.mem_cons, List.not_mem_nil, or_false] at he
+  have h1 := congrArg Prod.fst heq
+  have h2 := congrArg Prod.snd heq
+  rcases he with rfl | rfl | rfl <;> simp only [segPt] at h1 h2 <;> nlinarith
+example : outsideBox (extentX ((0, 0) : ℚ × ℚ) [(4, 0), (0, 4)]) (extentY (0, 0) [(4, 0), (0, 4)]) (5, 5) = true := by
+  decide +kernel
 
 end HydroVerif.C15
